@@ -24,6 +24,7 @@ CONSTANTS
   Dev_NoRecvTimeout = FALSE
   Dev_ClampedBodyRead = FALSE
   Dev_IdleBytesKept = FALSE
+  Dev_BackoffClampsAttempt = FALSE
 INVARIANT AtMostOnce
 INVARIANT AttemptBound
 INVARIANT FramingNotRetried
